@@ -1,11 +1,15 @@
 use crate::mon::Check;
 
+pub mod hist;
 pub mod norm;
 
 pub fn all() -> Vec<Box<dyn Check>> {
     let mut v: Vec<Box<dyn Check>> = vec![];
     for p in ["C01", "C02", "C06", "C07"] {
         v.push(Box::new(norm::NormCheck { prop: p }));
+    }
+    for p in ["C04", "C20"] {
+        v.push(Box::new(hist::HistCheck { prop: p }));
     }
     v
 }
